@@ -17,6 +17,7 @@ thread_local! {
     static MAX_REQ: Cell<usize> = const { Cell::new(0) };
     static CAP: Cell<usize> = const { Cell::new(usize::MAX) };
     static TOTAL: Cell<u64> = const { Cell::new(0) };
+    static RUN_CAP: Cell<usize> = const { Cell::new(usize::MAX) };
 }
 
 pub const DEFAULT_CAP: usize = 1 << 30;
@@ -26,6 +27,7 @@ pub fn begin_run(poison: u8, cap: usize) {
     let _ = MAX_REQ.try_with(|m| m.set(0));
     let _ = TOTAL.try_with(|m| m.set(0));
     let _ = CAP.try_with(|c| c.set(cap));
+    let _ = RUN_CAP.try_with(|c| c.set(cap));
 }
 
 /// (largest single request, total bytes requested) since `begin_run`
@@ -34,6 +36,29 @@ pub fn end_run() -> (usize, u64) {
     let t = TOTAL.try_with(|m| m.get()).unwrap_or(0);
     let _ = CAP.try_with(|c| c.set(usize::MAX));
     (m, t)
+}
+
+/// Runs `f` with the single-request cap lowered to `cap` (never raised). Used around decoding of
+/// untrusted bytes, where a request far above the input length is the failure being looked for.
+pub fn scoped_cap<T>(cap: usize, f: impl FnOnce() -> T) -> T {
+    let old = CAP.try_with(|c| c.get()).unwrap_or(usize::MAX);
+    let _ = CAP.try_with(|c| c.set(cap.min(old)));
+    let r = f();
+    let _ = CAP.try_with(|c| c.set(old));
+    r
+}
+
+/// Runs `f` (harness bookkeeping, e.g. the growth of the decision record) under the run-level cap
+/// even inside a [scoped_cap] region, so that the harness's own buffers are never blamed on the
+/// code under test.
+#[inline]
+pub fn exempt<T>(f: impl FnOnce() -> T) -> T {
+    let old = CAP.try_with(|c| c.get()).unwrap_or(usize::MAX);
+    let run = RUN_CAP.try_with(|c| c.get()).unwrap_or(usize::MAX);
+    let _ = CAP.try_with(|c| c.set(run));
+    let r = f();
+    let _ = CAP.try_with(|c| c.set(old));
+    r
 }
 
 #[inline]
